@@ -366,6 +366,17 @@ func (n *Net) SendUDP(from, to *net.UDPAddr, payload []byte) {
 	copies := 1
 	for i := range k.Plan.NetFaults {
 		f := &k.Plan.NetFaults[i]
+		if f.Do == "partition" && matchStr(f.M.Flow, flow) && d.SentAt >= f.AtNS && d.SentAt < f.AtNS+f.Arg {
+			k.Stats.Fault("net:partition")
+			k.Logf("net partition-drop %s %s#%d", flow, what, nth)
+			return
+		}
+	}
+	for i := range k.Plan.NetFaults {
+		f := &k.Plan.NetFaults[i]
+		if f.Do == "partition" {
+			continue
+		}
 		if !matchStr(f.M.Flow, flow) || !matchStr(f.M.What, what) || (f.M.Nth != 0 && f.M.Nth != nth) {
 			continue
 		}
